@@ -35,7 +35,8 @@ DYN_SVC = (1, 14)       # pvd.svc is registered/removed by external steps
 FUNC_NAME = (4, 15)     # state.get
 
 # ---- values -------------------------------------------------------------------------------------------------
-V_NONE, V_TIME, V_FUNC, V_BADTIME = 0, 1, 2, 3
+V_NONE, V_FUNC, V_BADTIME = 0, 2, 3
+TIME_BASE = 100000   # a datetime stamped during step number t (1-based; 0 = before the first step) has id TIME_BASE + t
 # pool of Python values: closed under str(); ids are positions + 10
 _POOL = [
     "on", "off", "", "7", 7, "1", 1, 1.0, "1.0", True, "True", False, "False", 0, "0", 2.5, "2.5", "None",
